@@ -325,7 +325,37 @@ class SpecGen:
                              'new_name': r.choice([None, 'r_all'])}]
         return spec
 
+    # arguments that accept an explicit None at construction although their
+    # default is something else (what must then survive save -> load)
+    NONEABLE = {
+        'Mie': ['compute_escat_radial', 'full_radial_dependence', 'eps1'],
+        'Multisphere': ['compute_escat_radial', 'suppress_fortran_output',
+                        'niter', 'eps', 'meth', 'qeps1'],
+        'MieLens': ['calculator_accuracy_kwargs', 'lens_angle'],
+        'AberratedMieLens': ['spherical_aberration',
+                             'calculator_accuracy_kwargs'],
+        'NmpfitStrategy': ['quiet', 'ftol', 'maxiter', 'damp'],
+        'LeastSquaresScipyStrategy': ['ftol', 'xtol'],
+        'EmceeStrategy': ['parallel', 'nwalkers'],
+        'CmaStrategy': ['parallel', 'resample_pixels', 'parent_fraction'],
+        'Spheres': ['warn'],
+        'LimitOverlaps': ['fraction'],
+    }
+
+    def sprinkle_none(self, spec):
+        r = self.rng
+        names = self.NONEABLE.get(spec.get('cls'))
+        if names and r.random() < 0.25:
+            spec['kw'][r.choice(names)] = None
+        return spec
+
     def any(self):
+        spec, kind = self._any()
+        if isinstance(spec, dict) and 'cls' in spec:
+            spec = self.sprinkle_none(spec)
+        return spec, kind
+
+    def _any(self):
         r = self.rng
         c = r.random()
         if c < 0.4:
